@@ -6,6 +6,7 @@ import Tickit.Proof.WinSteps
 import Tickit.Proof.WinGeom
 import Tickit.Proof.WinClose
 import Tickit.Proof.WinScroll
+import Tickit.Proof.WinFull
 import Tickit.Props.C02
 /-
   C01 — The flushed screen equals the painter's-model composition of the window tree.
@@ -627,7 +628,7 @@ example : RootOk exampleTree ∧ Flagged exampleTree ∧ Inv solidContent exampl
     · exact inv_of_full_damage _ _ _ root hw hf hv (by rw [hrect]) (by rw [hrect]) (by rw [hd, hrect]; simp)
     · decide +kernel
 
-/-! ### statements kept at full strength, not yet proved (see engines.d/C01.json `open_statements`) -/
+/-! ### stage 4: every tree-changing operation, with restacking requests queued -/
 
 /-- The operations that change the window tree, with the exposes the property's proviso demands after a geometry
     change. -/
@@ -645,25 +646,145 @@ def runTreeOp (st : St) : TreeOp → Res St
   | .hide id => do let t ← WinTree.hide st.tree st.fuel id; pure { st with tree := t }
   | .restack ch id => do let t ← requestHierarchyChange st.tree st.fuel ch id; pure { st with tree := t }
   | .setGeometry id rect => do
-    let w ← WinTree.get st.tree id
-    let (t, _) ← WinTree.setGeometry st.tree id rect
-    match w.parent with
-    | some p => do
-      let t ← WinTree.expose t st.fuel p (some w.rect)
-      let t ← WinTree.expose t st.fuel p (some rect)
-      pure { st with tree := t }
-    | none => pure { st with tree := t }
+    -- `tickit_window_set_geometry`, then the exposes of the old and the new area in the parent
+    let t ← setGeometryExposed st.tree st.fuel id rect
+    pure { st with tree := t }
   | .termResize l c => WinFlush.termResize st l c
 
-/-- `Inv` for a state with queued restacking requests: the composition is taken over the tree as the next flush will
-    see it (requests applied). -/
-def InvQ (content : Id → Int → Int → Cell) (st : St) : Prop :=
-  ∀ t, flushQueue st = .ok t → Inv content t st.screen
+/-- The root window itself is not closed, hidden, shown or moved by the application (its geometry follows the terminal);
+    the kinds of restacking requests are the four the API has; a terminal has at least one cell. -/
+def TreeOp.Ok : TreeOp → Prop
+  | .close id => id ≠ 0
+  | .show id => id ≠ 0
+  | .hide id => id ≠ 0
+  | .setGeometry id _ => id ≠ 0
+  | .restack ch _ => isRestack ch = true
+  | .termResize l c => 0 < l ∧ 0 < c
+  | .newWindow .. => True
 
-/-- Full statement of stage 4 (open): every tree-changing operation keeps "damaged or already right". -/
-def inv_step_full : Prop :=
-  ∀ (content : Id → Int → Int → Cell) (st st' : St) (op : TreeOp),
-    RootOk st.tree → RootsPositive st.tree → InvQ content st → runTreeOp st op = .ok st' → InvQ content st'
+/-- The invariant of every reachable state, restacking requests queued or not (`Proof/WinFull.lean`): the structural
+    invariants of the store, "every cell owned in the tree *as it stands* is damaged or already right", damage flagged,
+    queued requests of restacking kinds only, root window = terminal.  Nothing else is assumed of the queue: when the
+    flush applies it, each `_do_hierarchy_change` is one more step that keeps the invariant (`inv_step_queue`). -/
+abbrev GoodQ := WinFlush.GoodQ
+
+/-- **`inv_step_full`**: every tree-changing operation — creating a window (any flags), closing, showing, hiding, queueing
+    a restacking request, a geometry change followed by the proviso's exposes, a terminal resize — keeps the invariant,
+    whatever is queued.  (The earlier formulation of this statement assumed only `RootOk` and `RootsPositive` of the
+    tree, which is not enough: without the agreement of parent pointers and child lists the damage `hide` records in
+    `win->parent` need not cover the window.  `GoodQ` holds of every fresh terminal, `goodQ_init`, and is kept by every
+    operation.) -/
+theorem inv_step_full (content : Id → Int → Int → Cell) (st st' : St) (op : TreeOp) (hop : op.Ok)
+    (hg : GoodQ content st) (h : runTreeOp st op = .ok st') : GoodQ content st' := by
+  cases op with
+  | newWindow p r a b c d pen =>
+    simp only [runTreeOp, bind, Bind.bind] at h
+    cases hn : newWin st p r a b c d pen with
+    | ub e => rw [hn] at h; cases h
+    | ok x =>
+      rw [hn] at h
+      simp only [pure, Pure.pure] at h
+      cases h
+      exact goodQ_new content st x.1 p r a b c d pen x.2 hn hg
+  | close id =>
+    simp only [runTreeOp, bind, Bind.bind] at h
+    cases he : WinTree.close st.tree st.fuel id with
+    | ub w => rw [he] at h; cases h
+    | ok t' =>
+      rw [he] at h
+      simp only [pure, Pure.pure] at h
+      cases h
+      exact goodQ_close content st id t' hop he hg
+  | «show» id =>
+    simp only [runTreeOp, bind, Bind.bind] at h
+    cases he : WinTree.show st.tree st.fuel id with
+    | ub w => rw [he] at h; cases h
+    | ok t' =>
+      rw [he] at h
+      simp only [pure, Pure.pure] at h
+      cases h
+      exact goodQ_vis content st id t' hop (Or.inr he) hg
+  | hide id =>
+    simp only [runTreeOp, bind, Bind.bind] at h
+    cases he : WinTree.hide st.tree st.fuel id with
+    | ub w => rw [he] at h; cases h
+    | ok t' =>
+      rw [he] at h
+      simp only [pure, Pure.pure] at h
+      cases h
+      exact goodQ_vis content st id t' hop (Or.inl he) hg
+  | restack ch id =>
+    simp only [runTreeOp, bind, Bind.bind] at h
+    cases he : requestHierarchyChange st.tree st.fuel ch id with
+    | ub w => rw [he] at h; cases h
+    | ok t' =>
+      rw [he] at h
+      simp only [pure, Pure.pure] at h
+      cases h
+      exact goodQ_request content st ch id t' hop he hg
+  | setGeometry id rect =>
+    simp only [runTreeOp, bind, Bind.bind] at h
+    cases he : setGeometryExposed st.tree st.fuel id rect with
+    | ub w => rw [he] at h; cases h
+    | ok t' =>
+      rw [he] at h
+      simp only [pure, Pure.pure] at h
+      cases h
+      exact goodQ_geom content st id rect t' hop he hg
+  | termResize l c =>
+    exact goodQ_resize content st st' l c hop.1 hop.2 h hg
+
+/-- **`inv_step_queue`**: a flush with restacking requests queued applies them (`_do_hierarchy_change` each, in the order
+    queued), renders, and leaves the invariant, an empty queue, no damage — and every owned cell of the *re-stacked* tree
+    showing what its owner paints there. -/
+theorem inv_step_queue (beh : Id → Rect → List DrawOp) (content : Id → Int → Int → Cell) (st st' : St) (shots : List Shot)
+    (h : WinFlush.flush beh st = .ok (st', shots)) (hrep : Repaints content beh) (hg : GoodQ content st) :
+    GoodQ content st' ∧ Exact content st'.tree st'.screen ∧ st'.tree.root.changes = [] ∧ st'.tree.root.damage = [] :=
+  goodQ_flush beh content st st' shots h hrep hg
+
+/-- The tree a flush renders is the tree with the queued requests applied, in the order they were made. -/
+theorem flush_applies_queue (beh : Id → Rect → List DrawOp) (st st' : St) (shots : List Shot)
+    (h : WinFlush.flush beh st = .ok (st', shots)) (hl : st.tree.root.needsLater = true)
+    (root : Win) (hr : WinTree.get st.tree 0 = .ok root) (hp : root.parent = none) :
+    ∃ t, applyChanges st.fuel
+      { st.tree with root := { st.tree.root with needsLater := false, changes := [] } } st.tree.root.changes = .ok t ∧
+      st'.tree.wins = t.wins := by
+  unfold WinFlush.flush at h
+  rw [hr] at h
+  simp only [bind, Bind.bind, hp, Option.isSome_none, hl, Bool.false_eq_true, if_false, Bool.not_true] at h
+  cases hq : flushQueue st with
+  | ub e => rw [hq] at h; cases h
+  | ok t =>
+    rw [hq] at h
+    simp only at h
+    exact ⟨t, hq, (flushRender_tree beh st st' t shots h).1⟩
+
+/-- A freshly created terminal of positive size satisfies the invariant. -/
+theorem goodQ_init (content : Id → Int → Int → Cell) (lines cols : Int) (pen : Option Pen) (hl : 0 < lines) (hc : 0 < cols) :
+    GoodQ content (St.init lines cols pen) := by
+  have hg := good_init content lines cols pen hl hc
+  have hw : (St.init lines cols pen).tree.wins = #[{ rect := ⟨0, 0, lines, cols⟩, isRoot := true }] := by simp [St.init, newRoot]
+  have hw0 : (St.init lines cols pen).tree.wins[0]? = some { rect := ⟨0, 0, lines, cols⟩, isRoot := true } := by
+    simp [St.init, newRoot]
+  have hsome : ∀ (x : Nat) (w : Win), (St.init lines cols pen).tree.wins[x]? = some w →
+      x = 0 ∧ w = { rect := ⟨0, 0, lines, cols⟩, isRoot := true } := by
+    intro x w hx
+    rw [hw] at hx
+    cases x with
+    | zero => simp at hx; exact ⟨rfl, hx.symm⟩
+    | succ k => simp at hx
+  exact { tinv := ⟨⟨hg.wf, hg.nodup, hg.noSelf, hg.onlyRoot, hg.rootWin⟩, (by
+                     intro x w hx ch hch
+                     obtain ⟨_, rfl⟩ := hsome x w hx
+                     cases hch), hg.root, hg.pos, hg.nonempty, hg.dinv, hg.inv⟩
+          flags := fun hd => ⟨hg.flagged hd, hg.later hd⟩
+          queue := (by intro r hr; rw [hg.noQueue] at hr; cases hr)
+          queueLater := fun hq => absurd hg.noQueue hq
+          term := ⟨_, hw0, rfl, rfl⟩
+          pc := (by
+            intro x w p hx hp
+            obtain ⟨_, rfl⟩ := hsome x w hx
+            cases hp) }
 
 /-- Stage 5, first part (proved): the rebuilding of the pending damage by a scroll of `rect` by `(d, r)` is exact — damage
     outside the rectangle stays, damage inside moves with the terminal's content and is cut to the rectangle — and it
@@ -680,16 +801,17 @@ theorem scroll_damage_shift_exact (rect : Rect) (d r : Int) (hrect : rect.Nonemp
     · exact hx
   · exact Or.inr
 
-/-- Full statement of stage 5 (open): scrolling, under every scroll oracle, keeps "damaged or already right" when the
-    application's content moves with the scroll (`content'` is `content` shifted inside the scrolled rectangle). -/
+/-- Full statement of stage 5 (open): scrolling (`tickit_window_scroll`, `tickit_window_scrollrect`: children masked),
+    under every scroll oracle, keeps the invariant when the application's content moves with the scroll (`content'` is
+    `content` shifted inside the scrolled rectangle of the scrolled window). -/
 def scroll_step_full : Prop :=
   ∀ (oracle : Oracle) (content content' : Id → Int → Int → Cell) (st st' : St) (win : Id) (rect : Rect) (d r : Int)
-    (pen : Option Pen) (maskChildren ret : Bool),
-    RootOk st.tree → RootsPositive st.tree → InvQ content st →
-    WinFlush.scroll oracle st win rect d r pen maskChildren = .ok (st', ret) →
+    (pen : Option Pen) (ret : Bool),
+    GoodQ content st →
+    WinFlush.scroll oracle st win rect d r pen true = .ok (st', ret) →
     (∀ w l c, content' w l c =
-      if w = win ∧ rect.memb l c = true ∧ 0 ≤ l ∧ 0 ≤ c then content w (l + d) (c + r) else content w l c) →
-    InvQ content' st'
+      if w = win ∧ rect.memb l c = true then content w (l + d) (c + r) else content w l c) →
+    GoodQ content' st'
 
 /-! ### facts regenerated from the C source on every run -/
 
